@@ -949,7 +949,7 @@ def generate(ck):
 def run(ck):
     if os.environ.get('VERIF_COVERAGE'):
         return coverage_run(ck)
-    N_THEOREMS = 74
+    N_THEOREMS = 75
     # 1. regenerate the source-derived definitions (byte conditions, int conversion, statement skeletons, value kinds)
     gen = os.path.join(LEAN, 'MpVerif', 'Gen', 'C11Tok.lean')
     rc, out, err = sh([sys.executable, os.path.join(VERIF, 'translators', 'gen_c11.py'), REPO, gen, os.path.join(BUILD, 'tr')], timeout=600)
